@@ -54,7 +54,9 @@
 //     <dependencies>, property expression in dependencyManagement / profile / plugin), but updates only
 //     address the first declaration (the one both result.PackageUpdate's type and the writer's lookup
 //     name); the other declaration must keep its effective version. Updates addressed to a later
-//     declaration of the same key are not generated (ambiguous addressing). Dependencies
+//     declaration of the same key are not generated (ambiguous addressing). A dependency without
+//     <version> and the dependencyManagement entry that supplies its version count as ONE declaration:
+//     an update addressed to the dependency is expected to move both requirements. Dependencies
 //     without <version>, import-scoped BOMs, active-by-default profiles, remote parents:
 //     not generated (addressing of such updates is ambiguous in result.PackageUpdate).
 //   - package.json documents in which two keys of devDependencies/optionalDependencies resolve
